@@ -22,7 +22,7 @@ def shards(tier):
 
 
 def required_classes(tier):
-    return ["soak:distinct-messages", "xmd:len-from-literal", "xmd:valid", "xmd:dst>255", "xmd:ell>255", "xmd:len=0", "h2f:FQ", "h2f:FQ2"] + ["xmd:hash=" + h for h in HASHES]
+    return ["threads:xmd+hash_to_field", "soak:distinct-messages", "xmd:len-from-literal", "xmd:valid", "xmd:dst>255", "xmd:ell>255", "xmd:len=0", "h2f:FQ", "h2f:FQ2"] + ["xmd:hash=" + h for h in HASHES]
 
 
 MSG_LENS_Q = [0, 1, 55, 56, 63, 64, 65, 119, 128, 1024]
@@ -129,6 +129,28 @@ def run(rec):
                     dst = rng.randbytes(rng.choice([0, 1, 43, 255]))
                     rec.case(cls, (cls, msg, dst, count, hname), sample={"fn": fn.__name__, "msg_len": len(msg), "dst_len": len(dst), "count": count, "hash": hname})
                     call(getattr(h2c, fn.__name__), msg, count, dst, H)
+    if rec.shard in (1, 5) or not quick:
+        threads_phase(rec, hm, h2c)
+    else:
+        rec.case("threads:xmd+hash_to_field", None, nontrivial=False)
+
+
+def threads_phase(rec, hm, h2c):
+    """The same expansions while other threads expand other messages under other tags / hash functions."""
+    from .common import threaded_reprobe
+    rng = rec.rng
+    thunks = []
+    tags = [b"BLS_SIG_BLS12381G2_XMD:SHA-256_SSWU_RO_NUL_", b"BLS_POP_BLS12381G2_XMD:SHA-256_SSWU_RO_POP_", b"", rng.randbytes(255), b"QUUX-V01-CS02-with-expander"]
+    for j, (hname, H) in enumerate(HASHES.items()):
+        b = H().digest_size
+        for ol in (255 * b, 64 * b + 1, 2 * b):
+            msg, dst = rng.randbytes(rng.choice([0, 33, 200])), tags[(j + ol) % len(tags)]
+            thunks.append(("expand_message_xmd[%s,%d]" % (hname, ol), lambda msg=msg, dst=dst, ol=ol, H=H: hm.expand_message_xmd(msg, dst, ol, H)))
+    for j in range(4):
+        msg, dst, H = rng.randbytes(40), tags[j % len(tags)], list(HASHES.values())[j % len(HASHES)]
+        thunks.append(("hash_to_field_FQ2[count=%d]" % (2 + j), lambda msg=msg, dst=dst, H=H, c=2 + j: [tuple(int(c_) for c_ in e.coeffs) for e in h2c.hash_to_field_FQ2(msg, c, dst, H)]))
+        thunks.append(("hash_to_field_FQ[count=%d]" % (1 + j), lambda msg=msg, dst=dst, H=H, c=1 + j: [int(e) for e in h2c.hash_to_field_FQ(msg, c, dst, H)]))
+    threaded_reprobe(rec, "xmd+hash_to_field", thunks, threads=4, rounds=6 if rec.tier == "quick" else 60)
 
 
 def replay(rec, case):
@@ -136,6 +158,8 @@ def replay(rec, case):
     mon.install(["xmd", "h2f1", "h2f2"])
     import py_ecc.bls.hash as hm
     import py_ecc.bls.hash_to_curve as h2c
+    if case.get("fn") == "threads":
+        return threads_phase(rec, hm, h2c)
     H = HASHES[case["hash"]]
     if case["fn"] == "expand_message_xmd":
         call(hm.expand_message_xmd, case["msg"], case["dst"], case["len"], H)
